@@ -1,4 +1,98 @@
-import CacheVerif.Spec.TTL
+import CacheVerif.Proofs.ConcCacheLin
+/-!
+# C02 — concurrent Cache/CacheOf calls are linearizable against the TTL-map semantics
+
+Theorems about M5 (`Model.ConcCache`): any number of threads, any schedule, clock ticks at any moment (also in the
+middle of a call), arbitrary keys/values/TTLs/user functions.  Forward simulation with fixed linearization
+points: the shared state is always `Sim`-related (the relation of the sequential refinement C01) to a ghost
+`Spec.TTL` state that changes **only** at linearization points — by exactly the spec step of the call, whose
+result is what the call then returns — and at clock ticks; plus hindsight for the `Get` family.  Consequences
+spelled out by the property: an unexpired value is never lost to `DeleteExpired` / lazy deletion
+(`C02_cleanup_never_removes_live`, `C02_non_lp_steps_are_invisible`), nothing deleted, cleared or expired
+reappears (the abstract state only moves by spec steps).
+**Partial**: M5 treats the underlying map as atomic (justified by C03/C04 and the unmechanised substitutivity of
+linearizable objects); `Set` is linearized at its `Store` with the instant computed from an earlier clock
+reading (`SetStoreSpec`), and `GetWithTTL` on the hit path reports the TTL against a later clock reading; that
+the log of linearization points yields a Herlihy–Wing linearization is the standard argument, not mechanised.
+-/
 namespace Props.C02
-theorem placeholder : True := trivial
+open Spec Model Model.ConcCache Proofs.ConcCacheLin Proofs.CacheRefine
+
+variable {K V : Type} [DecidableEq K] [Inhabited V]
+
+/-- **the simulation invariant holds in every reachable state**: whatever the interleaving and the clock did, the
+shared map restricted to its unexpired entries is exactly the abstract TTL map (and the settings agree) -/
+theorem C02_sim_invariant (dflt : Int) (cb : Option Nat) (now : Int) (h0 : 0 ≤ now) (s : St K V)
+    (hr : Reach dflt cb now s) : Sim (view s.g) s.g.abs :=
+  gi_reach dflt cb now s hr h0
+
+/-- **every linearization point returns the TTL semantics' answer and performs its effect**, atomically -/
+theorem C02_linearization_points (dflt : Int) (cb : Option Nat) (now : Int) (h0 : 0 ≤ now) (s s' : St K V)
+    (t : Tid) (c : Choice K V) (δ : Nat) (op : COp K V) (hr : Reach dflt cb now s)
+    (hs : step s (some t) c δ = some s') (hlp : lpPc (s.l t).pc = true) (ho : (s.l t).op = some op) :
+    ∃ res, (s'.l t).result = some res ∧ logical res = (TTL.step s.g.abs (toSpec op)).2.1 ∧
+      ((s.l t).pc ≠ .setStore → s'.g.abs = (TTL.step s.g.abs (toSpec op)).1) ∧
+      ((s.l t).pc = .setStore → SetStoreSpec s.g (s.l t) op s'.g) := by
+  obtain ⟨hg, hl, hst, _, _⟩ := reach_tstep dflt cb now h0 s s' t c δ hr hs
+  exact lp_result t s.g (s.l t) c s'.g (s'.l t) op hg hl hlp ho hst
+
+/-- **every other step is logically invisible**: lazy deletion on read, every step of `DeleteExpired` and of the
+janitor, callback delivery, setting reads … leave the abstract state untouched -/
+theorem C02_non_lp_steps_are_invisible (t : Tid) (g : G K V) (l : L K V) (c : Choice K V) (g' : G K V) (l' : L K V)
+    (hp : lpPc l.pc = false) (hs : tstep t g l c = some (g', l')) : g'.abs = g.abs :=
+  abs_frame t g l c g' l' hp hs
+
+/-- **an unexpired value is never lost to DeleteExpired, a janitor pass or lazy expiry deletion** -/
+theorem C02_cleanup_never_removes_live (dflt : Int) (cb : Option Nat) (now : Int) (h0 : 0 ≤ now) (s s' : St K V)
+    (t : Tid) (c : Choice K V) (δ : Nat) (hr : Reach dflt cb now s) (hs : step s (some t) c δ = some s')
+    (hpc : (s.l t).pc = .deCompute ∨ (s.l t).pc = .getCompute) :
+    ∀ k i, s.g.items.get k = some i → TTL.expired i.e s.g.now = false → s'.g.items.get k = some i := by
+  obtain ⟨_, hl, hst, _, _⟩ := reach_tstep dflt cb now h0 s s' t c δ hr hs
+  exact never_removes_live t s.g (s.l t) c s'.g (s'.l t) hl hpc hst
+
+/-- **hindsight for the Get family**: a hit returns the abstract binding of the key at the instant of its lock-free
+`Load` (an instant inside the call); the TTL is reported against the clock read afterwards -/
+theorem C02_get_hindsight (dflt : Int) (cb : Option Nat) (now : Int) (h0 : 0 ≤ now) (s s' : St K V)
+    (t : Tid) (c : Choice K V) (δ : Nat) (hr : Reach dflt cb now s) (hs : step s (some t) c δ = some s')
+    (hpc : (s.l t).pc = .getChkClock) :
+    s'.g = s.g ∧ ∃ i op, (s.l t).loaded = some i ∧ (s.l t).op = some op ∧ (s.l t).nowAtLoad ≤ s.g.now ∧
+      ((TTL.expired i.e s.g.now = false ∧ (s'.l t).pc = .ret ∧ (s'.l t).result = some (hitResult op i s.g.now) ∧
+          (s.l t).absAtLoad = some i) ∨
+       (TTL.expired i.e s.g.now = true ∧ (s'.l t).pc = .getCompute)) := by
+  obtain ⟨_, hl, hst, _, _⟩ := reach_tstep dflt cb now h0 s s' t c δ hr hs
+  obtain ⟨h1, i, op, h2, h3, h4, _, h6⟩ := get_hindsight t s.g (s.l t) c s'.g (s'.l t) hl hpc hst
+  refine ⟨h1, i, op, h2, h3, h4, ?_⟩
+  rcases h6 with ⟨a, b, c', d⟩ | ⟨a, b, _⟩
+  · exact Or.inl ⟨a, b, c', d⟩
+  · exact Or.inr ⟨a, b⟩
+
+/-- a miss of the lock-free `Load` is a miss of the abstract map at that instant -/
+theorem C02_get_miss (dflt : Int) (cb : Option Nat) (now : Int) (h0 : 0 ≤ now) (s s' : St K V)
+    (t : Tid) (c : Choice K V) (δ : Nat) (hr : Reach dflt cb now s) (hs : step s (some t) c δ = some s')
+    (hpc : (s.l t).pc = .getLoad) (hret : (s'.l t).pc = .ret) :
+    ∃ k op, opKey (s.l t) = some k ∧ (s.l t).op = some op ∧ s.g.abs.live.get k = none ∧
+      (s'.l t).result = some (missResult op) := by
+  obtain ⟨hg, _, hst, _, _⟩ := reach_tstep dflt cb now h0 s s' t c δ hr hs
+  obtain ⟨k, op, h1, h2, _, h4, _, h6⟩ := get_load t s.g (s.l t) c s'.g (s'.l t) hg hpc hst
+  rcases h6 with ⟨_, _, hres, habs⟩ | ⟨i, _, hp, _⟩
+  · exact ⟨k, op, h1, h2, by rw [← h4]; exact habs, hres⟩
+  · rw [hp] at hret; cases hret
+
+/-- no call of the cache layer ever blocks in the model (the only waiting is inside the underlying map: C13) -/
+theorem C02_no_blocking (dflt : Int) (cb : Option Nat) (now : Int) (h0 : 0 ≤ now) (s : St K V) (t : Tid) (c : Choice K V)
+    (hr : Reach dflt cb now s) (h : (s.l t).pc ≠ .idle ∨ c.op.isSome = true) : (tstep t s.g (s.l t) c).isSome = true :=
+  no_step_blocks t s.g (s.l t) c ((inv_reach dflt cb now s h0 hr).2 t) h
+
+/-! ### Non-vacuity: `DeleteExpired` racing a fresh `Set` on an expired key (the schedule that broke the original
+code) — in the model the fresh value survives -/
+def exInit : St String Nat := init 10 none 0
+
+example : ∃ s, run exInit
+    [ (some 0, { op := some (.set "k" 1 5) }, 0), (some 0, {}, 0), (some 0, {}, 0), (some 0, {}, 0),   -- Set k 1 (ttl 5)
+      (none, {}, 6),                                                                                   -- clock passes e
+      (some 1, { op := some .deleteExpired }, 0), (some 1, {}, 0), (some 1, {}, 0), (some 1, {}, 0),   -- T1 reads k expired
+      (some 2, { op := some (.set "k" 2 100) }, 0), (some 2, {}, 0), (some 2, {}, 0), (some 2, {}, 0), -- T2 stores fresh
+      (some 1, {}, 0), (some 1, {}, 0), (some 1, {}, 0) ] = some s ∧
+    s.g.items.get "k" = some ⟨2, 106⟩ ∧ s.g.abs.live.get "k" = some ⟨2, 106⟩ := ⟨_, rfl, by decide, by decide⟩
+
 end Props.C02
